@@ -424,7 +424,8 @@ fn ref_stats(ch: &WChrom, s: u32, e: u32) -> RefStats {
     let mut mn = f64::INFINITY;
     let mut mx = f64::NEG_INFINITY;
     for b in s..e {
-        if let Some(v) = pb[b as usize] {
+        // bases beyond the chromosome end hold no data
+        if let Some(v) = pb.get(b as usize).copied().flatten() {
             r.bases += 1;
             r.sum += v as f64;
             r.abs_sum += (v as f64).abs();
@@ -554,9 +555,13 @@ impl Check for C17 {
             let mut bed_text = String::new();
             let mut expected: Vec<(String, String, u32, u32)> = vec![];
             for ch in &c.chroms {
-                for s in 0..ch.len {
-                    for e in s + 1..=ch.len {
+                // regions inside the chromosome, reaching beyond its end and wholly beyond it
+                for s in 0..ch.len + 2 {
+                    for e in s + 1..=ch.len + 3 {
                         out.count("regions", 1);
+                        if e > ch.len {
+                            out.count("regions_reaching_beyond_the_chromosome_end", 1);
+                        }
                         let entry = BedEntry { start: s, end: e, rest: format!("r{}_{}\tx", s, e) };
                         match stats_for_bed_item(&ch.name, entry, &mut rd) {
                             Err(err) => out.fail("region_stats_error", &tags, format!("{} [{},{}): {}", ch.name, s, e, err)),
